@@ -192,6 +192,44 @@ def e2_e3(ctx, fx, U):
         chk(ctx, "C08.E2", fn, line, "element-is-array", is_array_established(fn, D, e["bb"]), "a non-array disclosure is an Err", "a referenced disclosure that is not a JSON array is not rejected")
 
 
+E4_PROJECTIONS = ("as_str", "as_string", "and_then", "map", "as_u64", "as_i64", "to_string", "filter", "filter_map")
+E4_DEFAULTING = ("unwrap_or", "unwrap_or_else", "unwrap_or_default", "map_or", "map_or_else", "or", "or_else", "is_none_or", "xor")
+
+
+def _chain_ops(v):
+    """names of the calls from `v` (outermost first) down to the `_sd_alg` lookup, following the receiver"""
+    ops = []
+    x = peel(v)
+    g = 0
+    while g < 12 and x.kind == "call" and x.kids:
+        nm = x.d["term"].get("name")
+        if nm in ("index", "get") and len(x.kids) > 1 and const_value(x.kids[1]) == "_sd_alg":
+            break
+        ops.append(nm)
+        x = peel(x.kids[0])
+        g += 1
+    return ops
+
+
+def _is_sd_alg_lookup(x):
+    return x.kind == "call" and x.d["term"].get("name") in ("index", "get") and len(x.kids) > 1 and const_value(x.kids[1]) == "_sd_alg"
+
+
+def _defaulted_projection(v):
+    """the same shape after the std combinators were desugared by the inlining view: the compared value merges (phi) an alternative
+    obtained from the member through a partial projection (`as_str` ..) with an alternative that does not come from the member at all
+    (the default): the projection's failure is then indistinguishable from absence."""
+    for p_ in walk(v):
+        if p_.kind != "phi":
+            continue
+        alts = [a for a in p_.kids if a.kind != "cycle"]
+        via = [a for a in alts if may(a, lambda x: x.kind == "call" and x.d["term"].get("name") in E4_PROJECTIONS and x.kids and may(x.kids[0], _is_sd_alg_lookup))]
+        dflt = [a for a in alts if not may(a, _is_sd_alg_lookup)]
+        if via and dflt:
+            return "merge of a projected member with a default: %s" % vstr(p_)[:160]
+    return None
+
+
 def e4(ctx, fx, U):
     fn = U.entry
     fv = vals(fn)
@@ -211,6 +249,19 @@ def e4(ctx, fx, U):
             for (l, r) in ((c.kids[0], c.kids[1]), (c.kids[1], c.kids[0])):
                 if const_or_some(r) == "sha-256" and may(l, lambda x: x.kind == "call" and x.d["term"].get("name") in ("index", "get") and len(x.kids) > 1 and const_value(x.kids[1]) == "_sd_alg"
                                                         and is_field(peel(x.kids[0]), "sd_jwt_payload")):
+                    # strictness: the value compared is the member itself. A partial projection (`as_str`, `and_then(Value::as_str)`)
+                    # followed by a defaulting combinator (`unwrap_or("sha-256")`, `unwrap_or_default`, `map_or`, `or`) identifies a
+                    # member that is present but not a string (null, 256, ["sha-512"]) with an absent one, which the specification
+                    # does not: `_sd_alg`, when present, names the algorithm.
+                    ops = _chain_ops(l)
+                    proj = [i for i, o in enumerate(ops) if o in E4_PROJECTIONS]
+                    dflt = [i for i, o in enumerate(ops) if o in E4_DEFAULTING]
+                    dphi = _defaulted_projection(l)
+                    if dphi:
+                        ops = [dphi]
+                    if dphi or (proj and dflt and min(dflt) < max(proj)):
+                        ctx.finding("C08.E4", fn, "sd_alg-non-string", "a `_sd_alg` that is present but not a JSON string is treated like an absent one (%s): the comparison with \"sha-256\" sees the default, so null / 256 / [\"sha-512\"] pass" % " <- ".join(ops), line=fn.term(bb).get("line"))
+                        continue
                     good.append((bb, tt) if nm == "eq" else (bb, ft))
     # closure form: get(payload, "_sd_alg").map(|alg| alg != "sha-256").unwrap_or(false) / map_or(false, ..) / is_some_and(..)
     for (bb, tt, ft, c) in bool_switches(fn):
